@@ -150,7 +150,10 @@ func (s *sched) point(t int, c vstore.Call, opBoundary bool) {
 	s.mu.Lock()
 	what := "op"
 	if !opBoundary {
-		what = c.Kind.String()
+		what = "after-tx-end"
+		if c.Kind != vstore.NKinds {
+			what = c.Kind.String()
+		}
 	}
 	next := s.decide(t, fmt.Sprintf("t%d:%s", t, what))
 	if next < 0 {
@@ -443,6 +446,12 @@ func runSchedule(in *drv.Inst, snap []vstore.KV, sc *Scenario, mode string, pref
 			s.writer = -1
 		}
 		s.mu.Unlock()
+		if (c.Kind == vstore.Commit || c.Kind == vstore.Rollback) && !c.Done && s.mode != ModeReduced && !s.aborted {
+			// a point right AFTER a transaction ended and before the operation returns: an operation that still uses
+			// memory it obtained inside the transaction (bbolt hands out slices of its mmap) is exposed to the commits
+			// other threads make in this window
+			s.point(t, vstore.Call{Kind: vstore.NKinds}, false)
+		}
 	}
 	var ready sync.WaitGroup
 	ready.Add(n)
